@@ -73,7 +73,8 @@ def main():
     checks, na = [], []
     for pid in sorted(T):
         tech, text, ref = T[pid]
-        if os.path.exists(os.path.join(ROOT, "vmon", "props", pid.lower() + ".py")):
+        ready = set(open(os.path.join(ROOT, "tools", "ready.txt")).read().split())
+        if pid in ready and os.path.exists(os.path.join(ROOT, "vmon", "props", pid.lower() + ".py")):
             checks.append({
                 "property_id": pid,
                 "quick_cmd": "./check %s --tier quick" % pid,
